@@ -1184,8 +1184,14 @@ R"(
         clock_gettime(CLOCK_MONOTONIC, &tv);
 #endif
         auto _now = tv.tv_sec * 1000ull * 1000ull + tv.tv_nsec / 1000ull;
-        now = _now;     // can not ```return now = ...;``` in debug
-        return _now;    // mode because ```now``` is a volatile variable
+        // `now` is shared by all vCPUs: a vCPU descheduled between reading the
+        // clock and publishing it must not move the runtime clock backwards
+        // (deadlines computed from a regressed `now` expire early)
+        auto pnow = (uint64_t*)&now;
+        auto cur = __atomic_load_n(pnow, __ATOMIC_RELAXED);
+        while (cur < _now && !__atomic_compare_exchange_n(pnow, &cur, _now,
+                    true, __ATOMIC_RELAXED, __ATOMIC_RELAXED)) { }
+        return (cur < _now) ? _now : cur;
     }
 #ifdef PHOTON_VERIF_SIM
     // verification hook: the TSC decides whether photon::now is refreshed, i.e.
